@@ -9,6 +9,7 @@ import GeoModel.ValidationSpec
 import GeoProofs.Lemmas.C14Visit
 import GeoProofs.Lemmas.C14Flat
 import GeoProofs.Lemmas.C14PRing
+import GeoProofs.Lemmas.C14PPairs
 import Mathlib.Tactic.Ring
 
 namespace Geo.Proofs.C14
@@ -783,5 +784,134 @@ theorem triangle_valid_iff_spec (a b c : Pt) :
     have hac : a ≠ c := fun e => h (orient_col_of_eq a b c (Or.inr (Or.inl e)))
     have hbc : b ≠ c := fun e => h (orient_col_of_eq a b c (Or.inr (Or.inr e)))
     simp [hab, hac, hbc, h]
+
+/-! ## 7. Ring-versus-ring clauses, with `relate` instantiated by the DE-9IM specification
+
+What follows from the *shape* of `relateParts` alone (the matrix is the maximum over arrangement
+atoms). The shell-versus-hole clause is NOT an unfolding: the code relates the shell polygon with
+the hole as a *LineString* (`is_contains`, `BI = 1`), the specification `polyValidRings` relates
+the hole as a *Polygon* with the shell polygon (`II ≠ F`, `IE = F`, `BE = F`, `dim BB ≤ 0`); their
+agreement rests on the adequacy of the DE-9IM specification (DESIGN S1) and is left to the
+correspondence. Likewise the `→` direction of the area clause needs "`II` of two polygons is `F`
+or `2`" (S1): `holePair_iff_partial`.
+-- full statement kept for the record:
+-- theorem ringPairErrs_nil_iff_polyValidRings (f) (q : Poly) (hrings : all rings ringSimple) :
+--     ringPairErrs ⟨relateSpec, f⟩ q = [] ↔ (the two relate clauses of polyValidRings (Poly.solid q))
+-/
+
+/-- [T] structural: in the DE-9IM specification a cell whose row or column is a boundary never
+has dimension 2 — so the specification's "boundaries meet in points at most" (`dim BB ≤ 0`) is
+exactly the negation of the code's test `BB = 1`. -/
+theorem boundary_cells_never_area (pa pb : Parts) (x y : Pos) (h : x = .onBoundary ∨ y = .onBoundary) :
+    (relateParts pa pb).get x y ≠ .two :=
+  C14P.relateParts_boundary_ne_two pa pb x y h
+
+example : (relateSpec (.polygon ⟨[⟨0, 0⟩, ⟨1, 0⟩, ⟨0, 1⟩, ⟨0, 0⟩], []⟩)
+    (.polygon ⟨[⟨0, 0⟩, ⟨1, 0⟩, ⟨0, 1⟩, ⟨0, 0⟩], []⟩)).bb ≠ .two :=
+  boundary_cells_never_area _ _ .onBoundary .onBoundary (Or.inl rfl)
+
+/-- [T] the line clause, exact: `dimLe0 BB` (specification) ⇔ `BB ≠ 1` (code). -/
+theorem boundaries_meet_in_points_iff (a b : List Pt) :
+    dimLe0 (relateParts (polyOf a) (polyOf b)).bb = !ringsShareLine a b := by
+  rw [Bool.eq_iff_iff, C14P.dimLe0_bb_iff]
+  simp [ringsShareLine]
+
+/-- [T] the ring-versus-ring pass of the Polygon visitor, with `relate` = the specification, lists
+no error exactly when every non-empty hole — as a LineString — is contained in the shell polygon
+(`T*****FF*`) with `BI ≠ 1`, and has `II ≠ 2` and `BB ≠ 1` with every later hole (as polygons). -/
+theorem ringPairErrs_nil_iff_relateSpec (f : XRing → Bool) (q : Poly) :
+    ringPairErrs ⟨relateSpec, f⟩ q = [] ↔
+      ∀ (i : Nat) (hi : List Pt), q.ints[i]? = some hi → hi ≠ [] →
+        isContains (relateParts (polyOf q.ext) ⟨[], [hi], []⟩) = true ∧
+        (relateParts (polyOf q.ext) ⟨[], [hi], []⟩).bi ≠ .one ∧
+        ∀ (j : Nat) (hj : List Pt), i < j → q.ints[j]? = some hj →
+          (relateParts (polyOf hi) (polyOf hj)).ii ≠ .two ∧ (relateParts (polyOf hi) (polyOf hj)).bb ≠ .one :=
+  C14P.ringPairErrs_nil_iff f q
+
+/-- [T] hole-versus-hole clause, completeness side: a pair of holes that satisfies the
+specification's clause (`II = F`, `dim BB ≤ 0` of `polyValidRings`) draws no error. -/
+theorem holePair_no_error_of_spec (f : XRing → Bool) (h1 h2 : List Pt) (i j : Nat)
+    (h : C14P.holePairSpec h1 h2 = true) : holePairErrs ⟨relateSpec, f⟩ h1 i h2 j = [] :=
+  C14P.holePair_spec_imp f h1 h2 i j h
+
+example : holePairErrs ⟨relateSpec, fun _ => false⟩ [⟨0, 0⟩, ⟨1, 0⟩, ⟨0, 1⟩, ⟨0, 0⟩] 0
+    [⟨5, 5⟩, ⟨6, 5⟩, ⟨5, 6⟩, ⟨5, 5⟩] 1 = [] :=
+  holePair_no_error_of_spec _ _ _ _ _ (by decide +kernel)
+
+/-- [T] … in particular a polygon that satisfies the specification's `polyValidRings` draws no
+hole-versus-hole error. -/
+theorem polyValidRings_no_holePair_errors (f : XRing → Bool) (q : Poly)
+    (h : polyValid.polyValidRings q = true) (i j : Nat) (hi hj : List Pt) (hij : i < j)
+    (hgi : q.ints[i]? = some hi) (hgj : q.ints[j]? = some hj) :
+    holePairErrs ⟨relateSpec, f⟩ hi i hj j = [] := by
+  apply holePair_no_error_of_spec
+  simp only [polyValid.polyValidRings, Bool.and_eq_true] at h
+  obtain ⟨_, hall⟩ := h
+  rw [C14P.allPairs_iff] at hall
+  have := hall i j _ _ hij (by rw [List.getElem?_map, hgi]; rfl) (by rw [List.getElem?_map, hgj]; rfl)
+  simpa [hgi, hgj, C14P.holePairSpec] using this
+
+example : holePairErrs ⟨relateSpec, fun _ => false⟩ [⟨1, 1⟩, ⟨2, 1⟩, ⟨1, 2⟩, ⟨1, 1⟩] 0
+    [⟨5, 5⟩, ⟨6, 5⟩, ⟨5, 6⟩, ⟨5, 5⟩] 1 = [] :=
+  polyValidRings_no_holePair_errors _
+    ⟨[⟨0, 0⟩, ⟨9, 0⟩, ⟨9, 9⟩, ⟨0, 9⟩, ⟨0, 0⟩],
+      [[⟨1, 1⟩, ⟨2, 1⟩, ⟨1, 2⟩, ⟨1, 1⟩], [⟨5, 5⟩, ⟨6, 5⟩, ⟨5, 6⟩, ⟨5, 5⟩]]⟩
+    (by decide +kernel) 0 1 _ _ (by omega) rfl rfl
+
+/-- [Tp] hole-versus-hole clause, both directions, given that `II` of the two hole polygons is
+`F` or `2` (true of the point sets; for `relateParts` it is part of S1).
+Full statement: without `hS1`. -/
+theorem holePair_iff_partial (f : XRing → Bool) (h1 h2 : List Pt) (i j : Nat)
+    (hS1 : (relateParts (polyOf h1) (polyOf h2)).ii = .empty ∨ (relateParts (polyOf h1) (polyOf h2)).ii = .two) :
+    holePairErrs ⟨relateSpec, f⟩ h1 i h2 j = [] ↔ C14P.holePairSpec h1 h2 = true :=
+  C14P.holePair_iff_of_area f h1 h2 i j hS1
+
+example : C14P.holePairSpec [⟨0, 0⟩, ⟨2, 0⟩, ⟨0, 2⟩, ⟨0, 0⟩] [⟨0, 0⟩, ⟨2, 0⟩, ⟨0, 2⟩, ⟨0, 0⟩] = false := by
+  rw [← Bool.not_eq_true, ← holePair_iff_partial (fun _ => false) _ _ 0 1 (Or.inr (by decide +kernel))]
+  decide +kernel
+
+/-- [T] error soundness: `IntersectingRingsOnAnArea(a, b)` names two different existing,
+non-empty holes whose interiors intersect according to the specification. -/
+theorem onArea_sound (f : XRing → Bool) (p : XPoly) (a b : Role)
+    (he : PolyErr.onArea a b ∈ polyErrs ⟨relateSpec, f⟩ p) : polyErrSound p (.onArea a b) = true := by
+  obtain ⟨q, hq, i, j, hi, hj, hij, hgi, hgj, hne, hm⟩ :=
+    C14P.holePair_mem_polyErrs f p _ (fun _ => by simp) (fun _ => by simp) (fun _ _ => by simp)
+      (fun _ => by simp) (fun _ => by simp) he
+  obtain ⟨rfl, rfl, hii⟩ := (C14P.onArea_mem_holePairErrs f hi hj i j a b).mp hm
+  have hnej : hj ≠ [] := by
+    intro e
+    rw [e] at hii
+    have := C14P.relateParts_nil_right (polyOf hi) .inside .inside (by simp)
+    rw [show (relateParts (polyOf hi) (polyOf [])).get .inside .inside =
+      (relateParts (polyOf hi) (polyOf [])).ii from rfl, hii] at this
+    cases this
+  have e1 : hi.isEmpty = false := by cases hi <;> simp_all
+  have e2 : hj.isEmpty = false := by cases hj <;> simp_all
+  have e3 : (Role.int i != Role.int j) = true := by simp; omega
+  simp [polyErrSound, hq, getRingQ, hgi, hgj, e1, e2, e3, ringsShareArea, hii]
+
+/-- [T] error soundness: `IntersectingRingsOnALine(int i, int j)` between two holes names two
+different existing, non-empty holes whose boundaries share a line according to the specification.
+(For the shell-versus-hole form `IntersectingRingsOnALine(ext, int k)` see the remark above.) -/
+theorem onLine_holes_sound (f : XRing → Bool) (p : XPoly) (i j : Nat)
+    (he : PolyErr.onLine (.int i) (.int j) ∈ polyErrs ⟨relateSpec, f⟩ p) :
+    polyErrSound p (.onLine (.int i) (.int j)) = true := by
+  obtain ⟨q, hq, i', j', hi, hj, hij, hgi, hgj, hne, hm⟩ :=
+    C14P.holePair_mem_polyErrs f p _ (fun _ => by simp) (fun _ => by simp) (fun _ _ => by simp)
+      (fun _ => by simp) (fun _ => by simp) he
+  obtain ⟨e1, e2, hbb⟩ := (C14P.onLine_mem_holePairErrs f hi hj i' j' _ _).mp hm
+  injection e1 with e1; injection e2 with e2
+  subst e1; subst e2
+  have hnej : hj ≠ [] := by
+    intro e
+    rw [e] at hbb
+    have := C14P.relateParts_nil_right (polyOf hi) .onBoundary .onBoundary (by simp)
+    rw [show (relateParts (polyOf hi) (polyOf [])).get .onBoundary .onBoundary =
+      (relateParts (polyOf hi) (polyOf [])).bb from rfl, hbb] at this
+    cases this
+  have e1 : hi.isEmpty = false := by cases hi <;> simp_all
+  have e2 : hj.isEmpty = false := by cases hj <;> simp_all
+  have e3 : (Role.int i != Role.int j) = true := by simp; omega
+  simp [polyErrSound, hq, getRingQ, hgi, hgj, e1, e2, e3, ringsShareLine, hbb]
 
 end Geo.Proofs.C14
